@@ -120,4 +120,5 @@ class ConstantKernel(Kernel):
         if last_dim_is_batch:
             constant = constant.unsqueeze(-1)
 
-        return constant.expand(shape)
+        # the constant may carry batch dimensions that the inputs lack
+        return constant.expand(torch.broadcast_shapes(shape, constant.shape))
